@@ -471,6 +471,7 @@ pub fn run(args: &[String]) -> i32 {
                 let first = ch.choose("bad_position", n);
                 let second = ch.choose("second_bad_position", n + 1); // n = none
                 let layout = ch.choose("layout", 3); // 0 single-file, 1 multi one crate, 2 multi one crate per file
+                let alone = ch.flag("offending_item_alone_in_its_file");
                 let lang = *ch.pick("lang", &ALL_LANGS);
                 let mut files = Vec::new();
                 let mut bad_count = 0;
@@ -482,7 +483,12 @@ pub fn run(args: &[String]) -> i32 {
                     };
                     let source = if i == first {
                         bad_count += 1;
-                        srcs[ci].1.replace("Good", "BadGood").replace("Outer", "BadOuter")
+                        let b = srcs[ci].1.replace("Good", "BadGood").replace("Outer", "BadOuter");
+                        if alone {
+                            cli::strip_good_item(&b)
+                        } else {
+                            b
+                        }
                     } else if i == second {
                         bad_count += 1;
                         srcs[(ci + 1) % srcs.len()].1.replace("Good", "SecondGood").replace("Outer", "SecondOuter").replace("NAME", "SECOND_NAME")
@@ -495,13 +501,13 @@ pub fn run(args: &[String]) -> i32 {
                 cfg.multi_file = layout != 0;
                 acc.judgements += 1;
                 acc.runs += 1;
-                acc.inputs.insert(report::fnv64(&format!("{ci}|{n}|{first}|{second}|{layout}")));
+                acc.inputs.insert(report::fnv64(&format!("{ci}|{n}|{first}|{second}|{layout}|{alone}")));
                 if first != 0 || n > 2 {
                     acc.nontrivial.insert(report::fnv64(&format!("{ci}|{n}|{first}|{second}|{layout}")));
                 }
                 let o = crate::pipeline::run(&files, lang, &cfg);
                 acc.outcomes.insert(report::fnv64(o.kind()));
-                let shape = format!("construct={}|files={n}|bad_at={first}{}|layout={layout}", srcs[ci].0, if second < n && second != first { format!("+{second}") } else { String::new() });
+                let shape = format!("construct={}|files={n}|bad_at={first}{}|layout={layout}|alone={}", srcs[ci].0, if second < n && second != first { format!("+{second}") } else { String::new() }, alone as u8);
                 let detail = |what: String| json!({"choices": ch.choices(), "lang": lang.name(), "files": files.iter().map(|f| json!({"crate": f.crate_name, "path": f.path, "source": f.source})).collect::<Vec<_>>(), "observation": what});
                 match &o {
                     crate::pipeline::Outcome::ParseErrors(e) => {
@@ -517,7 +523,7 @@ pub fn run(args: &[String]) -> i32 {
             report::threads(),
             u64::MAX,
         );
-        merge(&mut rep, "fold_over_files", accs, &stats, json!({"constructs": srcs.iter().map(|c| c.0).collect::<Vec<_>>(), "files": "2..=4", "offending_files": "1 or 2, every position", "layouts": ["single-file", "multi-file one crate", "multi-file crate per file"], "languages": 6}));
+        merge(&mut rep, "fold_over_files", accs, &stats, json!({"constructs": srcs.iter().map(|c| c.0).collect::<Vec<_>>(), "files": "2..=4", "offending_files": "1 or 2, every position", "layouts": ["single-file", "multi-file one crate", "multi-file crate per file"], "offending_item_alone_in_its_file": [false, true], "languages": 6}));
     }
     cli::c08_cli_family(&mut rep);
     cli::c08_arrival_family(&mut rep);
